@@ -39,7 +39,9 @@ Definition decode (w : fw) (b : Z) : fv :=
   end.
 
 Definition ubits (w : fw) : Z := match w with W32 => 24 | W64 => 53 end.      (* unit roundoff 2^-ubits *)
-Definition tiny (w : fw) : Z := match w with W32 => -149 | W64 => -1074 end.   (* smallest subnormal *)
+(* absolute allowance: the smallest NORMAL number -- a result that underflows may be flushed to zero
+   or rounded to any subnormal (kernels with flush-to-zero arithmetic are accepted) *)
+Definition tiny (w : fw) : Z := match w with W32 => -126 | W64 => -1022 end.
 Definition maxfin (w : fw) : F.type :=
   match w with W32 => fz 16777215 104 | W64 => fz 9007199254740991 971 end.
 Definition eta (w : fw) : I.type := iv (-1) (tiny w) 1 (tiny w).
@@ -65,21 +67,36 @@ Definition f_dot w (a b : list I.type) : I.type :=
   let mag := isum (map I.abs prods) in
   I.add prec (I.add prec (isum prods) (I.mul prec mag (iv (- 2 * n) (- ubits w) (2 * n) (- ubits w)))) (eta w).
 
+(* Interval's exp, sin, cos and tan take very long on arguments of huge magnitude (argument
+   reduction with an exponent-sized loop). exp is monotone, so beyond +-800 -- where the value is
+   outside the range of binary64 anyway -- its enclosure is taken from the bound; sin and cos of an
+   argument above 2^60 are enclosed by [-1, 1], tan by the whole line. All three are still sound. *)
+Definition c800 := pt 800 0.
+Definition sexp (x : I.type) : I.type :=
+  if I.subset x (iv (-800) 0 800 0) then I.exp prec x
+  else if I.subset x (I.bnd (fz 800 0) F.nan) then I.bnd (I.lower (I.exp prec c800)) F.nan
+  else if I.subset x (I.bnd F.nan (fz (-800) 0)) then I.bnd F.zero (I.upper (I.exp prec (I.neg c800)))
+  else I.bnd F.zero F.nan.
+Definition trig_ok (x : I.type) : bool := I.subset x (iv (-1) 60 1 60).
+Definition ssin (x : I.type) : I.type := if trig_ok x then I.sin prec x else iv (-1) 0 1 0.
+Definition scos (x : I.type) : I.type := if trig_ok x then I.cos prec x else iv (-1) 0 1 0.
+Definition stan (x : I.type) : I.type := if trig_ok x then I.tan prec x else I.bnd F.nan F.nan.
+
 (* |x| < 2^-20 ? (x a point or small interval) *)
 Definition is_small (x : I.type) : bool := I.subset x (iv (-1) (-20) 1 (-20)).
 Definition near_id (x : I.type) : I.type := I.mul prec x (iv (2 ^ 38 - 1) (-38) (2 ^ 38 + 1) (-38)).
 
 (* real functions beyond Interval's primitives, by their textbook identities; arguments of
    magnitude < 2^-20 use f(x) = x (1 + O(x^2)) to avoid cancellation *)
-Definition r_exp := I.exp prec.
-Definition r_sigmoid (x : I.type) := I.div prec ione (I.add prec ione (I.exp prec (I.neg x))).
+Definition r_exp := sexp.
+Definition r_sigmoid (x : I.type) := I.div prec ione (I.add prec ione (sexp (I.neg x))).
 Definition r_tanh (x : I.type) :=
   if is_small x then near_id x
-  else let t := I.exp prec (I.mul prec itwo x) in I.div prec (I.sub prec t ione) (I.add prec t ione).
+  else let t := sexp (I.mul prec itwo x) in I.div prec (I.sub prec t ione) (I.add prec t ione).
 Definition r_sinh (x : I.type) :=
   if is_small x then near_id x
-  else I.mul prec ihalf (I.sub prec (I.exp prec x) (I.exp prec (I.neg x))).
-Definition r_cosh (x : I.type) := I.mul prec ihalf (I.add prec (I.exp prec x) (I.exp prec (I.neg x))).
+  else I.mul prec ihalf (I.sub prec (sexp x) (sexp (I.neg x))).
+Definition r_cosh (x : I.type) := I.mul prec ihalf (I.add prec (sexp x) (sexp (I.neg x))).
 Definition pos_asinh (x : I.type) := I.ln prec (I.add prec x (I.sqrt prec (I.add prec (I.sqr prec x) ione))).
 Definition r_asinh (x : I.type) :=
   if is_small x then near_id x
